@@ -429,7 +429,7 @@ def c16_jobs(tier):
     js = []
     stds = ['c++17', 'c++20'] if tier == 'quick' else ['c++11', 'c++14', 'c++17', 'c++20', 'c++23']
     for std in stds:
-        for el in ['int', 'Tv'] + (['Tr'] if tier != 'quick' or std == 'c++20' else []):
+        for el in ['int', 'Tv', 'Tw'] + (['Tr'] if tier != 'quick' or std == 'c++20' else []):
             for (na, nb, ca, cb) in ([(2, 2, 4, 4), (2, 3, 2, 4), (0, 2, 3, 2)] if tier == 'quick' else [(2, 2, 4, 4), (2, 2, 2, 2), (2, 3, 2, 4), (3, 2, 4, 2), (0, 2, 3, 2), (0, 0, 4, 4), (2, 0, 2, 4)]):
                 js.append(cmp_job(0, el, na, nb, ca, cb, std=std))
         js.append(cmp_job(0, 'int', 2, 3, 4, 4, std=std, extra_clang=['-DGCH_DISABLE_CONCEPTS'], tag='-noconcepts') if std in ('c++20', 'c++23') else None)
@@ -462,6 +462,16 @@ def c18_jobs(tier):
                 js.append(two_job(op, 'TrX', na, nb, ca, cb, afl=afl, ideq=ideq, fmask=J.K_ALL, sizea=(2 if op == 'swap' and ca >= 2 else None)))
     for op in ['move_ctor', 'assign_move']:
         js.append(two_job(op, 'TrX', 3, 2, 3, 2, fmask=J.K_ALL, witness=EX, sizea=(1 if op == 'assign_move' else None))); js.append(two_job(op, 'TrX', 2, 3, 2, 3, fmask=J.K_ALL, witness=EX, sizea=(1 if op == 'assign_move' else None)))
+    # allocation failure in cross-capacity move construction / assignment (nothrow-move element types: the element part cannot throw, the allocator can)
+    for op in ['move_ctor', 'move_ctor_alloc', 'assign_move']:
+        for (na, nb, ca, cb) in [(2, 3, 2, 3), (0, 2, 0, 2), (2, 3, 2, 5), (3, 2, 3, 3)]:
+            js.append(two_job(op, 'int', na, nb, ca, cb, fmask=J.K_ALLOC)); js.append(two_job(op, 'int', na, nb, ca, cb, fmask=J.K_ALLOC, afl=A_IAE, ideq=0))
+        js.append(two_job(op, 'Tr', 2, 3, 2, 3, fmask=J.K_ALL, sizea=(1 if op == 'assign_move' else None), sizeb=3))
+    # nothrow move construction but throwing move assignment: move assignment between inline containers must let the exception out
+    for op in ['move_assign', 'assign_move']:
+        for (afl, ideq) in [(0, 1), (A_IAE, 0), (A_POCMA, 0)]:
+            js.append(two_job(op, 'TrA', 2, 2, 2, 2, afl=afl, ideq=ideq, fmask=J.K_ALL, sizea=1, witness=EX)); js.append(two_job(op, 'TrA', 2, 2, 2, 2, afl=afl, ideq=ideq, fmask=J.K_ALL, sizea=2, sizeb=1, witness=EX))
+    js.append(two_job('swap', 'TrA', 2, 2, 2, 2, fmask=J.K_ALL, sizea=1))
     for op in ['push_back_c', 'insert_c', 'resize_v', 'reserve', 'emplace_back']:
         js.append(ops_job(op, 'TrX', 2, 4, fmask=J.K_ALL, witness=FAULT_W))
     for op in ['ctor_range', 'assign_range', 'insert_range', 'append_range']:
@@ -488,6 +498,8 @@ def c17_jobs(tier):
         for op in ops:
             for (n, cap) in ([(2, 4)] if tier == 'quick' else [(2, 2), (2, 4), (0, 2)]):
                 js.append(ops_job(op, 'int', n, cap, std=std, extra_clang=xc, tag=tg))
+        for op in ['push_back_c', 'erase_range', 'insert_n', 'pop_back']:   # inline representation (const-initialised observers: inlined() differs here if it is folded at compile time)
+            js.append(ops_job(op, 'int', 2, 2, std=std, extra_clang=xc, tag=tg))
         for op in (['insert_n', 'push_back_c'] if tier == 'quick' else ['insert_n', 'push_back_c', 'resize_v', 'erase_range', 'assign_n', 'insert_c']):
             js.append(ops_job(op, 'Tr', 2, 4, std=std, extra_clang=xc, tag=tg))
         js.append(ops_job('push_back_c', 'TrX', 2, 4, fmask=J.K_ALL, std=std, extra_clang=xc, tag=tg, witness=FAULT_W))
@@ -495,7 +507,7 @@ def c17_jobs(tier):
             js.append(two_job(op, 'int', 2, 2, 2, 4, std=std, extra_clang=xc, tag=tg))
             js.append(two_job(op, 'int', 2, 2, 4, 4, afl=A_IAE, ideq=0, std=std, extra_clang=xc, tag=tg))
         js.append(two_job('assign_move', 'int', 2, 3, 2, 5, std=std, extra_clang=xc, tag=tg))
-        js.append(cmp_job(0, 'int', 2, 3, 4, 4, std=std, extra_clang=xc, tag=tg)); js.append(cmp_job(0, 'Tv', 2, 2, 4, 4, std=std, extra_clang=xc, tag=tg))
+        js.append(cmp_job(0, 'int', 2, 3, 4, 4, std=std, extra_clang=xc, tag=tg)); js.append(cmp_job(0, 'Tv', 2, 2, 4, 4, std=std, extra_clang=xc, tag=tg)); js.append(cmp_job(0, 'Tw', 2, 3, 4, 4, std=std, extra_clang=xc, tag=tg)); js.append(cmp_job(0, 'Tw', 2, 2, 2, 4, std=std, extra_clang=xc, tag=tg))
         js.append(cmp_job(1, 'int', 2, 0, 4, 4, std=std, extra_clang=xc, tag=tg)); js.append(cmp_job(2, 'int', 2, 2, 4, 2, std=std, extra_clang=xc, tag=tg))
         js.append(rng_job('ctor_range', 'int', 2, 2, itk=3, std=std, extra_clang=xc, tag=tg) if False else None)
     return _nn(js)
